@@ -279,14 +279,19 @@ Open Scope Z_scope.
         "examples": ["Example C07_okT_inhabited : Sweep2dProofs.okT 2 2 (full [2; 2] 1%float).", "Proof. exact FloatInstances.okT_inhabited. Qed.", ""],
     },
     "C03": {
-        "title": "Solver total and sane: what is proved about the generated solver for all inputs (raise contract, shapes); finite / non-negative / bounded / zero-only-at-source are examined on the implementation",
-        "header": HDR_G.format(imports="From FT.proofs Require Import Sweep2dProofs Sweep3dProofs Solve2dProofs Solve3dProofs."),
+        "title": "Solver total and sane: what is proved about the generated solver for all inputs (raise contract, shapes, 2D non-negativity in exact arithmetic); finite / bounded / zero-only-at-source and 3D non-negativity are examined on the implementation",
+        "header": HDR_G.format(imports="From Coq Require Import Reals.\nFrom FT.proofs Require Import Sweep2dProofs Sweep3dProofs Solve2dProofs Solve3dProofs.\nFrom FT.proofs Require OperatorsR NonNeg2d."),
         "theorems": [
             ("solve2d_raises_iff_source_outside", "Solve2dProofs.fteik2d_raises_iff", "the 2D solver raises ValueError exactly when the code's own domain test fails (comparisons as written: a NaN coordinate fails it) and otherwise returns; every numeric instance"),
             ("solve3d_raises_iff_source_outside", "Solve3dProofs.fteik3d_raises_iff", "3D"),
             ("initial_grid_shape_2d", "Solve2dProofs.fteik2d_init_okT", "the work grid has one more node than the model has cells along each axis and is well formed, through the whole source initialisation"),
             ("initial_grid_shape_3d", "Solve3dProofs.fteik3d_init_okT", "3D"),
             ("result_grid_shape_2d", "Solve2dProofs.fteik2d_monotone_in_nsweep_le", "hence every returned traveltime grid has that shape (okT conclusions) and later sweeps only lower it"),
+            ("four_point_operator_causal", "NonNeg2d.four_point_ge_tev", "exact arithmetic: under its admissibility test the 4-point operator returns at least the diagonal neighbour's time (its radicand is non-negative there: four_point_radicand_nonneg)"),
+            ("node_update_nonneg_2d", "NonNeg2d.sweep_nonneg", "one 2D node update keeps every traveltime >= 0 (slowness >= 0, spacings > 0; any indices, signs, shapes)"),
+            ("pass_nonneg_2d", "NonNeg2d.sweep2d_nonneg", "a whole pass"),
+            ("initialisation_nonneg_2d", "NonNeg2d.init_nonneg", "the state after the source initialisation: every entry is the placeholder, 0, an analytic time or a time that passed the admissibility guard against a non-negative neighbour (fix fdc5767)"),
+            ("solve2d_nonneg", "NonNeg2d.fteik2d_nonneg_get", "every traveltime returned by the 2D solver is >= 0 and so is the reported source-cell slowness, for every model with non-negative slowness, every source, nsweep and flag"),
         ],
         "examples": [],
     },
